@@ -10,8 +10,8 @@
    repaired in /repo (33a78fa, d14529d) and are now proved at full strength for the repaired
    code: comment lines are irrelevant without a guard, and the depth guard of
    explicit_semicolon_equiv now holds inside every { } block. *)
-From Aelys Require Import Base.Tactics Extracted.AsiTokens Extracted.ParserSets Model.Asi Model.Literal Model.ExprStart
-                          Proofs.AsiProofs Proofs.LiteralProofs Proofs.ExprStartProofs.
+From Aelys Require Import Base.Tactics Extracted.AsiTokens Extracted.ParserSets Model.Asi Model.Literal Model.ExprStart Model.BlockParse
+                          Proofs.AsiProofs Proofs.LiteralProofs Proofs.ExprStartProofs Proofs.BlockParseProofs.
 Local Open Scope N_scope.
 
 (* the model is written for the lookahead the source has today (regenerated on every run) *)
@@ -101,6 +101,44 @@ Example C15_tilde_value_block_regression :
   can_begin_expression TTilde = true /\ expr_start_listed TTilde = true
   /\ value_block_yields TTilde = ValueOfExpression /\ value_block_yields TLParen = ValueOfExpression.
 Proof. exact tilde_listed_lemma. Qed.
+
+(* ---- the parser of value blocks (if-expression branches), Model/BlockParse.v: for all item lists *)
+(* a semicolon -- written, or the one the lexer makes of a newline -- directly before the closing
+   `}` changes nothing: `{ e }`, `{ e` NEWLINE `}` and `{ e; }` have the same value (repaired by b7be80a) *)
+Theorem C15_value_block_trailing_semicolon : forall l, block_value (l ++ [BSemi]) = block_value l.
+Proof. exact trailing_semi_lemma. Qed.
+
+(* `;;`: a doubled semicolon (blank line after an explicit `;`, ...) changes nothing *)
+Theorem C15_value_block_double_semicolon : forall l1 l2,
+  block_value (l1 ++ BSemi :: BSemi :: l2) = block_value (l1 ++ BSemi :: l2).
+Proof. exact double_semi_lemma. Qed.
+
+(* redundant parentheses around any expression item of the block (Grouping makes it begin with `(`) *)
+Theorem C15_value_block_grouping : forall l1 k l2,
+  can_begin_expression k = true ->
+  block_value (l1 ++ BExpr k :: l2) = block_value (l1 ++ BExpr TLParen :: l2).
+Proof. exact grouping_item_any_lemma. Qed.
+
+(* the statement-vs-expression decision for the block's tail: an expression followed only by
+   semicolons is the value, a statement there makes the block yield null *)
+Theorem C15_value_block_tail_expression : forall l k ss last i,
+  block_state l None false 0 = Some (last, false, i) ->
+  can_begin_expression k = true -> forallb is_semi ss = true ->
+  block_value (l ++ BExpr k :: ss) = Value i.
+Proof. exact tail_expression_is_value. Qed.
+
+Theorem C15_value_block_tail_statement : forall l ss last i,
+  block_state l None false 0 = Some (last, false, i) -> forallb is_semi ss = true ->
+  block_value (l ++ BTerm :: ss) = Null /\ block_value (l ++ BBlock :: ss) = Null.
+Proof. exact tail_statement_is_null. Qed.
+
+Example C15_value_block_nonvacuous :
+  block_value [BTerm; BSemi; BExpr TTilde; BSemi] = Value 0                       (* { let d = 1; ~5; } *)
+  /\ block_value [BExpr TIdentifier; BSemi; BSemi; BExpr TLParen] = Value 1%nat
+  /\ block_value [BExpr TInt; BSemi; BBlock] = Null                               (* { 7; while false { } } *)
+  /\ block_value [BExpr TInt; BTerm] = ParseError                                 (* { 7 let d = 1 } *)
+  /\ block_state [BBlock; BExpr TInt; BSemi] None false 0 = Some (Some 0%nat, false, 1%nat).
+Proof. vm_compute. repeat split; reflexivity. Qed.
 
 (* ---- integer literals *)
 (* a digit-group underscore anywhere after the first digit (decimal) or after the radix prefix
